@@ -1,6 +1,7 @@
 //! itmc — bounded exhaustive exploration (model checking) of the real indextree arena.
 mod deep;
 mod explore;
+mod free;
 mod judges;
 mod known;
 mod model;
@@ -81,6 +82,7 @@ pub fn plan(prop: &str, tier: &str) -> Plan {
         "C08" => {
             profile.writes = true;
             profile.clear_op = true;
+            profile.tree_ops = true;
             judge.ledger = true;
             if q { vec![(2, 3), (3, 5), (4, 5)] } else { vec![(2, 3), (3, 6), (4, 6), (4, 7)] }
         }
@@ -187,6 +189,7 @@ fn cmd_sweep(args: &[String]) -> i32 {
         .unwrap_or(if tier == "quick" { 45 } else { 1500 });
     let deadline = Instant::now() + Duration::from_secs(cap_s);
     let mut reports = Vec::new();
+    let mut free_counts = (0u64, 0u64);
     for (n, a) in pl.bounds.clone() {
         let cfg = RunCfg {
             n,
@@ -261,9 +264,31 @@ fn cmd_sweep(args: &[String]) -> i32 {
             reports.push(rep);
         }
     }
+    // C01 / C02: the model-free closure (no pruning), so that the invariants are also judged on
+    // arenas reached after some other property was violated on the way
+    let mut free_json = json!(null);
+    let mut free_unknown = 0usize;
+    if (prop == "C01" || prop == "C02") && arg(args, "--bounds").is_none()
+        && !reports.iter().any(|r| r.violations.iter().any(|v| !v.known))
+    {
+        let (n, a) = if tier == "quick" { (4, 6) } else { (4, 8) };
+        let fr = free::explore(n, a, pl.judge.target, threads(), Some(deadline));
+        eprintln!(
+            "[{prop} {tier}] model-free closure ({n},{a}): states={} transitions={} exhaustive={} violations={} {:.1}s{}",
+            fr.states, fr.transitions, fr.exhaustive, fr.violations.len(), fr.wall_s,
+            fr.cap_hit.as_ref().map(|c| format!(" [{c}]")).unwrap_or_default()
+        );
+        for (f, path) in &fr.violations {
+            free_unknown += emit_simple(&prop, &format!("free|{}", f.sig), &format!("after the calls {:?}: {}", path, f.detail), &known,
+                json!({"engine": "free", "init": "Arena::new()", "calls": path}));
+        }
+        free_json = json!({"bounds": [n, a], "states": fr.states, "transitions": fr.transitions, "levels": fr.levels,
+            "exhaustive": fr.exhaustive, "cap_hit": fr.cap_hit, "sample_history": fr.sample, "wall_s": fr.wall_s});
+        free_counts = (fr.states, fr.transitions);
+    }
     // C13: with_capacity(n) changes nothing observable: same digest stream as new(), capacity >= n
-    let mut extra_unknown = 0usize;
-    let mut extra = json!({});
+    let mut extra_unknown = free_unknown;
+    let mut extra = json!({"model_free_closure": free_json});
     if prop == "C13" && !reports.iter().any(|r| r.violations.iter().any(|v| !v.known)) {
         let (n, a) = if tier == "quick" { (3, 5) } else { (4, 6) };
         let mk = |init: Init| RunCfg {
@@ -338,6 +363,14 @@ fn cmd_sweep(args: &[String]) -> i32 {
             ],
             wall,
         );
+        let mut ev = ev;
+        if free_counts.0 > 0 {
+            let c = ev["coverage"].as_object_mut().unwrap();
+            let st = c["states"].as_u64().unwrap() + free_counts.0;
+            let tr = c["transitions"].as_u64().unwrap() + free_counts.1;
+            c.insert("states".into(), json!(st));
+            c.insert("transitions".into(), json!(tr));
+        }
         if let Some(dir) = std::path::Path::new(&path).parent() {
             let _ = std::fs::create_dir_all(dir);
         }
@@ -908,12 +941,12 @@ fn main() {
                 let g = slot.lock().unwrap();
                 if let Some(w) = g.as_ref() {
                     if w.since.elapsed() > Duration::from_secs(20) {
-                        let opk = w.op.map(|o| o.kind()).unwrap_or("?");
+                        let opk = w.op.map(|o| o.kind()).unwrap_or_else(|| if w.note.is_some() { "free" } else { "?" });
                         let hang_props = ["C02", "C05", match opk { "remove" | "remove_subtree" => "C04", "new_node" | "tree_leaf" | "tree_nest" => "C07", "write" => "C08", "clear" | "reserve" => "C13", _ => "C03" }];
                         let _ = std::fs::create_dir_all(format!("{VERIF}/replays"));
                         let path = format!("{VERIF}/replays/{}-hang.json", prop);
                         let j = json!({"property": prop, "signature": format!("watchdog|{opk}|-|call-does-not-return"),
-                            "init": w.init, "ops": w.path.iter().map(|o| o.text()).collect::<Vec<_>>(), "failing_op": w.op.map(|o| o.text()),
+                            "init": w.init, "ops": w.path.iter().map(|o| o.text()).collect::<Vec<_>>(), "failing_op": w.op.map(|o| o.text()).or(w.note.clone()),
                             "arena_before_the_call": w.arena, "detail": "the library call did not return within 20 s"});
                         let _ = std::fs::write(&path, serde_json::to_string_pretty(&j).unwrap());
                         if hang_props.contains(&prop.as_str()) {
@@ -925,7 +958,7 @@ fn main() {
                                     "assumptions": [], "wall_s": 20.0, "violations": 1}));
                             }
                             println!("VIOLATION property={} replay={}", prop, path);
-                            println!("  history  : {} {}\n  then     : {} does not return (20 s)", w.init, w.path.iter().map(|o| o.text()).collect::<Vec<_>>().join("; "), w.op.map(|o| o.text()).unwrap_or_default());
+                            println!("  history  : {} {}\n  then     : {} does not return (20 s)", w.init, w.path.iter().map(|o| o.text()).collect::<Vec<_>>().join("; "), w.op.map(|o| o.text()).or(w.note.clone()).unwrap_or_default());
                             std::process::exit(1);
                         }
                         eprintln!("MACHINERY-ERROR: a library call hangs ({}; see {path}); property {prop} cannot be decided on this tree — the checks of C02/C05 report it", w.op.map(|o| o.text()).unwrap_or_default());
